@@ -47,7 +47,7 @@ fn bases() -> Vec<Base> {
     for method in ["GET", "PUT"] {
         for path in ["/bkt/a", "/bkt/a%20b", "/bkt/a%2Bb", "/bkt/a/b", "/bkt/%C3%A9", "/bkt/a%3Fb%23c%25d", "/bkt/a%2520b"] {
             // (incl. parameters without a value, bare and with '=': sub-resource markers and empty prefixes are signed as `name=`)
-            for query in ["", "a=1", "response-content-type=text%2Fplain", "versionId=v1&a=%20+", "k=%2541", "uploads", "tagging=", "prefix=&max-keys=1&delimiter"] {
+            for query in ["", "a=1", "response-content-type=text%2Fplain", "versionId=v1&a=%20+", "k=%2541", "uploads", "tagging=", "prefix=&max-keys=1&delimiter", "x-a1=1&x-a%3Ab=2", "nam%C3%A9=2&name=1"] {
                 for (meta, hshape) in [(false, 0u8), (true, 0), (true, 1), (true, 2)] {
                     for h2 in [false, true] {
                         if h2 && (meta || !query.is_empty()) {
@@ -606,7 +606,7 @@ pub fn run(ctx: &Ctx) -> (Acc, Report) {
     });
     let rep = Report {
         level: "exploration",
-        rule: format!("{n_bases} presignable requests (GET/PUT x 7 keys (incl. a key that contains an escape-shaped text) x 8 extra-query shapes (incl. valueless parameters, bare and with '=') x signed headers {{host, host+meta, host + a meta header sent on two lines, host + a meta header with inner runs of blanks}} x HTTP/1.1|2) x 14 X-Amz-Expires spellings x server-clock instants at signing time + {{-901,-900,-899,-1,0,1,E-1,E,E+1}} s and +-1 ms around both window edges; plus, inside the window, every single mutation/removal/duplication/case change of every query parameter, each signature digit, each credential field, method, each path byte, signed header value/removal, a further line of a signed header appended / prepended, the lines of a repeated signed header swapped / one dropped, provider secret, and 3 equivalent rewrites (parameter order, header name case, blanks inside a signed value); thorough: also every pair of these mutations (signature digits 0, 31, 63 standing for the 64 in pairs). Oracle: reference verifier at the same instant. All judged cases are non-trivial; distinct by id."),
+        rule: format!("{n_bases} presignable requests (GET/PUT x 7 keys (incl. a key that contains an escape-shaped text) x 10 extra-query shapes (incl. valueless parameters, bare and with '=', and names whose order changes when they are escaped) x signed headers {{host, host+meta, host + a meta header sent on two lines, host + a meta header with inner runs of blanks}} x HTTP/1.1|2) x 14 X-Amz-Expires spellings x server-clock instants at signing time + {{-901,-900,-899,-1,0,1,E-1,E,E+1}} s and +-1 ms around both window edges; plus, inside the window, every single mutation/removal/duplication/case change of every query parameter, each signature digit, each credential field, method, each path byte, signed header value/removal, a further line of a signed header appended / prepended, the lines of a repeated signed header swapped / one dropped, provider secret, and 3 equivalent rewrites (parameter order, header name case, blanks inside a signed value); thorough: also every pair of these mutations (signature digits 0, 31, 63 standing for the 64 in pairs). Oracle: reference verifier at the same instant. All judged cases are non-trivial; distinct by id."),
         exhaustive: true,
         extra: json!({"histories": hist_n, "history_requests_executed": hist_steps, "history_rule": "all sequences of length 1..3 over 8 requests of this property's scheme(s) (two identities x honest / signed with the other identity's secret x two scopes) plus every pair led by a request of another scheme, on one service instance, single-threaded, fixed order; each verdict = the reference verdict of that request alone", "base_requests": n_bases, "signing_instant_x_expiry_cases": n_instants, "signing_instant_rule": "7 signing instants (end of a leap day, of a year, of a century; midnight; 00:14:59; 2^31-1 s; a plain noon) x 5 expiries x the server clock second by second around t0-900, t0, t0+E and around every midnight in reach (thorough: the whole window for E <= 900)"}),
         assumptions: vec![
